@@ -648,8 +648,9 @@ func createConnHandler(
 			ctx := stream.Context()
 
 			args := dynamicpb.NewMessage(argsDesc)
-			if err := stream.RecvMsg(args); err != nil {
-				return err
+			inErr := stream.RecvMsg(args)
+			if inErr != nil && !(inErr == io.EOF && sd.ClientStreams) {
+				return inErr // a client stream may be closed without any message
 			}
 
 			if md, ok := metadata.FromIncomingContext(ctx); ok {
@@ -660,16 +661,17 @@ func createConnHandler(
 			if err != nil {
 				return err
 			}
-			if err := clientStream.SendMsg(args); err != nil {
-				return err
+			if inErr == nil {
+				if err := clientStream.SendMsg(args); err != nil {
+					return err
+				}
 			}
 
-			var inErr error
 			var wg sync.WaitGroup
 			if sd.ClientStreams {
 				wg.Add(1)
 				go func() {
-					for {
+					for inErr == nil {
 						args := dynamicpb.NewMessage(argsDesc)
 						if inErr = stream.RecvMsg(args); inErr != nil {
 							break
@@ -677,6 +679,12 @@ func createConnHandler(
 
 						if inErr = clientStream.SendMsg(args); inErr != nil {
 							break
+						}
+					}
+					if inErr == io.EOF {
+						// The client half-closed: tell the backend.
+						if err := clientStream.CloseSend(); err != nil {
+							inErr = err
 						}
 					}
 					wg.Done()
